@@ -57,3 +57,7 @@ Fixpoint run_trace (e : env) (h : list op) : list LRU.op :=
   | [] => []
   | o :: r => step_trace e o ++ run_trace (fst (step e o)) r
   end.
+
+(* env.auto_reload is a public attribute and may be changed between requests *)
+Definition set_auto (e : env) (b : bool) : env :=
+  {| auto_reload := b; upt := upt e; cache := cache e; loader := loader e; heap := heap e; next := next e |}.
